@@ -31,6 +31,7 @@ SAFETY = ("ExactlyOnce", "BadChecksumNacked", "NoAckLost", "ReceiverStaysAlive",
           "Retransmit", "MutualExclusion", "TypeOK")
 SPECIALS = (36, 35, 125, 42)
 ALPHA6 = (36, 35, 125, 42, 39, 97)  # $ # } * ' a
+ALPHA_CTL = (37, 43, 45, 58, 3, 97)  # % + - : ^C a
 
 FLAG_WHAT = {
     "NoNack": "decoder() has no branch for '-': a negative acknowledgement never reaches the ack queue, so the sender never retransmits",
@@ -979,7 +980,11 @@ class Engine:
             # quick: every payload <=2 and every fourth of length 3 (all of them in the thorough tier; the model
             # run "M framing" and the generator "G framing" cover the whole set in both tiers)
             pls = [p for p in pls if len(p) <= 2] + [p for p in pls if len(p) == 3][:: 4]
-        for p in pls:
+        # bytes that mean something *outside* a frame (% notification start, + / - acknowledgements, : , 0x03 interrupt)
+        # are ordinary payload inside one: rsp_pack does not escape them
+        ctl = all_payloads(ALPHA_CTL, 3)
+        pls_ctl = [p for p in ctl if 0 < len(p) <= 2] + [p for p in ctl if len(p) == 3][:: (1 if th else 5)]
+        for p in pls + pls_ctl:
             traces.append(_rec(lambda p=p: framing_trace(p, 2), "fr:" + bytes(p).hex()))
         for k, (cmd, rsp) in enumerate((("m 65,4", "01027309"), ("g", "0000"), ("Z0,62,4", "OK"), ("c", "S05"))):
             if rsp == "S05":
